@@ -243,6 +243,12 @@ theorem commit_hook_sees_only_changes (parents : List PostCommit.Tree) (hne : pa
     ∃ par ∈ parents, PostCommit.lookup par p ≠ PostCommit.lookup t p ∨ (∃ b, (p, b) ∈ t ∧ PostCommit.lookup par p ≠ some b) :=
   PostCommit.unchanged_not_listed parents hne t p h
 
+/-- a commit or checkout that changes an attributes file makes the hook look at EVERY file: a file that becomes lockable
+    without changing itself is among them (D87) -/
+theorem hook_looks_at_everything_when_attributes_change (isAttr : Nat → Bool) (all chg : List Nat) (a : Nat) (ha : a ∈ chg)
+    (hattr : isAttr a = true) (f : Nat) (hf : f ∈ all) : f ∈ PostCommit.looked isAttr all chg :=
+  PostCommit.attrs_change_looks_at_everything isAttr all chg a ha hattr f hf
+
 /-! tie to commands/command_unlock.go as it is in /repo now -/
 /-- the guard of `git lfs unlock --id` looks the lock up in the local cache (third argument true) and, when that
     yields nothing, asks the SERVER (third argument false): the user's own lock that this clone's cache does not
@@ -254,5 +260,18 @@ theorem gen_unlock_by_id_asks_cache_then_server :
        [102, 105, 108, 116, 101, 114, 44, 32, 48, 44, 32, 102, 97, 108, 115, 101, 44, 32, 102, 97, 108, 115, 101, 32, 124, 32, 108, 101, 110, 40, 108, 111, 99, 107, 115, 41, 32, 61, 61, 32, 48]]
         -- filter, 0, false, false | len(locks) == 0
       := by decide
+
+/-- tie to commands/command_post_commit.go and command_post_checkout.go: both hooks fall back on the scan of every
+    lockable file when a changed path's base name is `.gitattributes` (post-checkout also when the diff fails) -/
+theorem gen_hooks_full_scan_on_attribute_change :
+    Gen.hookFullScans =
+      [
+       --  | path.Base(f) == ".gitattributes"
+       [32, 124, 32, 112, 97, 116, 104, 46, 66, 97, 115, 101, 40, 102, 41, 32, 61, 61, 32, 34, 46, 103, 105, 116, 97, 116, 116, 114, 105, 98, 117, 116, 101, 115, 34],
+       -- client | err != nil
+       [99, 108, 105, 101, 110, 116, 32, 124, 32, 101, 114, 114, 32, 33, 61, 32, 110, 105, 108],
+       -- client | path.Base(f) == ".gitattributes"
+       [99, 108, 105, 101, 110, 116, 32, 124, 32, 112, 97, 116, 104, 46, 66, 97, 115, 101, 40, 102, 41, 32, 61, 61, 32, 34, 46, 103, 105, 116, 97, 116, 116, 114, 105, 98, 117, 116, 101, 115, 34]
+      ] := by decide
 
 end C16
